@@ -763,6 +763,15 @@ fn run_persist(seed: u64, unique: bool, text: bool, bucket: usize, compress: i32
                 // the recovered index must still work: insert + flush + reload
                 b2.insert(99, &fv_key(7, text), 5).map_err(|e| violation!("c10.no-progress", "{ctx}: insert after recovery failed: {e:?}")).ok();
                 block(b2.flush(6)).map_err(|e| violation!("c10.no-progress", "{ctx}: flush after recovery failed: {e:?}"))?;
+                // what the recovered index holds survives its own next flush and a clean reload
+                let want = wrapper_contents(&b2, text);
+                let storage3 = storage_for(&st, bucket, compress).map_err(|e| violation!("c10.load-error", "{ctx}: storage connect failed: {e}"))?;
+                let b3 = block(BTree::bootstrap("f".to_string(), &ft, storage3)).map_err(|e| violation!("c10.lost-after-recovery-flush", "{ctx}: after the recovered index flushed once more, loading it again failed: {e:?}"))?;
+                let back = wrapper_contents(&b3, text);
+                if back != want {
+                    return Err(violation!("c10.lost-after-recovery-flush", "{ctx}: the recovered index held {want:?} after its next flush, but a clean reload yields {back:?}"));
+                }
+                rep.probe("recovered_then_flushed_then_reloaded", 1);
             }
             Err(e) => {
                 // only a crash inside the very creation of the index may leave nothing to load
